@@ -1187,11 +1187,28 @@ def generate(ctx: Ctx, scale: int, rng, thorough=False):
         eval_case(ctx, c)
         # out-of-zone records are ignored
         if rng.chance(1, 2) and origin != [b""]:
-            extra = rng.choice(["out.other. 300 IN A 1.2.3.4", "zz.invalid. IN TXT \"x\" ( \n \"y\" )", "other. 5 CNAME www", "x.net. MX 10 (\n a )\n  A 9.9.9.9"])
+            anc = origin[rng.range(1, len(origin) - 1):]          # a proper ancestor of the origin (possibly the root)
+            sib = [b"zz"] + origin[1:]                             # a sibling of the origin
+            extra = rng.choice(["out.other. 300 IN A 1.2.3.4", "zz.invalid. IN TXT \"x\" ( \n \"y\" )", "other. 5 CNAME www", "x.net. MX 10 (\n a )\n  A 9.9.9.9",
+                                name_text(anc) + " 300 IN A 1.2.3.4", name_text(anc) + " IN NS ns1\n\t300 IN TXT \"inherits the out-of-zone owner\"",
+                                name_text(sib) + " 60 IN A 10.9.8.7", name_text(anc) + " 300 IN CNAME www ; junk ( \n )"])
             text = tb + ("" if tb.endswith("\n") else "\n") + extra + "\n"
             c2 = {"kind": "spell", "what": "out-of-zone", "origin": hexl(origin), "rel": rel, "a": l1(tb).hex(), "b": l1(text).hex()}
             ctx.case(("ooz", text, rel), sample=None)
             eval_case(ctx, c2)
+        # CNAME and other data at one name, in either order: loading must fail (correspondence) and, if it does not, stay exclusive
+        if rng.chance(1, 3):
+            o = rng.choice([r for r in recs if r[0] != hexl(origin)] or recs)
+            own = name_text([bytes.fromhex(x) for x in o[0]])
+            other = rng.choice(["A 10.1.1.1", "TXT \"t\"", "MX 5 mx", "NS ns9"])
+            pair = [f"cn-{rng.below(9)}.{own} 300 IN CNAME target", f"cn-{rng.below(9)}.{own} 300 IN {other}"]
+            pair[1] = pair[0].split(" ")[0] + " " + pair[1].split(" ", 1)[1]
+            if rng.chance(1, 2):
+                pair.reverse()
+            tc = ta + "\n".join(pair) + "\n"
+            c4 = {"kind": "read", "origin": hexl(origin), "rel": rel, "chk": False, "text": l1(tc).hex()}
+            ctx.case(("cnameconflict", tc, rel), sample=None)
+            eval_case(ctx, c4)
         # malformed stream (foreign exceptions on this stream belong to C04; here only correspondence + CNAME exclusivity)
         for i in range(2):
             tm = mutate_text(rng, tb) if i else render_zone_text(rng.fork(9), origin, recs, spell=True, generic_names=True)
